@@ -225,6 +225,11 @@ class Interp:
     def kill(self, st: dict, var: str) -> None:
         for pre in ("nn:", "tr:", "lk:", "vs:", "st:", "ex:", "d:", "mn:"):
             st.pop(pre + var, None)
+        if "ev:test" in st:
+            import re as _re
+
+            if _re.search(rf"\b{_re.escape(var)}\b", st["ev:test"]):
+                st.pop("ev:test")  # the tested expression mentions a name that is being rebound
         # expressions that mention var are stale
         for k in [k for k in st if k.startswith("ex:")]:
             e = self.expr_table.get(st[k])
@@ -244,8 +249,14 @@ class Interp:
                 for t, v in zip(target.elts, value.elts):
                     self.assign(t, v, st, node)
             else:
-                for nm in _store_names(target):
-                    self.kill(st, nm)
+                for el in target.elts:
+                    # `d["k"], d["j"] = f(..)`: stores of unknown values under constant keys, not a rebinding of d
+                    if isinstance(el, ast.Subscript) and isinstance(el.value, ast.Name) and f"d:{el.value.id}" in st:
+                        key = el.slice.value if isinstance(el.slice, ast.Constant) else None
+                        self.dict_store(st, el.value.id, key, ast.Name(id="<unknown>", ctx=ast.Load()), node)
+                        continue
+                    for nm in _store_names(el):
+                        self.kill(st, nm)
                 # (content, error) = self._helper(...): a position that is always None-or-one-envelope binds that envelope,
                 # flagged maybe-None until a test excludes None
                 summ = self.helper_tuples(value) if (self.helper_tuples is not None and isinstance(value, ast.Call)) else None
@@ -575,6 +586,9 @@ class Interp:
         return "?"
 
     def refine(self, e: ast.AST, val: bool, st: dict) -> None:
+        if val and isinstance(e, (ast.BoolOp, ast.Compare)) and self.is_evidence_expr(e, st):
+            # `if <lookup> is not None or (...)` tested directly (not through a named flag): its truth is the evidence
+            st["ev:test"] = ast.unparse(e)[:120]
         if isinstance(e, ast.Name):
             if e.id not in self.relevant:
                 return
@@ -724,6 +738,8 @@ class Interp:
         for k, v in st.items():
             if k.startswith("nn:") and v == "NN" and ("lk:" + k[3:]) in st:
                 return f"{k[3:]} (= {st['lk:' + k[3:]]}) is not None"
+        if "ev:test" in st:
+            return f"`{st['ev:test']}` was tested true on this path"
         for k, v in st.items():
             if k.startswith("tr:") and v == "T" and ("ex:" + k[3:]) in st:
                 e = self.expr_table.get(st["ex:" + k[3:]])
@@ -742,7 +758,7 @@ class Interp:
             return self.is_evidence_expr(e.args[0], st)
         return False
 
-    def is_lookup_var(self, var: str) -> bool:
+    def is_lookup_var(self, var: str, _depth: int = 0) -> bool:
         """every binding of var is a schema lookup call or the constant None"""
         ok = False
         for n in walk_no_nested(self.fi.node):
@@ -758,6 +774,9 @@ class Interp:
                 continue
             if isinstance(val, ast.Call) and ast.unparse(val.func).split(".")[-1] in LOOKUPS:
                 ok = True
+                continue
+            if isinstance(val, ast.Name) and val.id != var and _depth < 4 and self.is_lookup_var(val.id, _depth + 1):
+                ok = True  # a copy of a lookup result
                 continue
             if isinstance(val, ast.IfExp) and all((isinstance(x, ast.Constant) and x.value is None) or (isinstance(x, ast.Call) and ast.unparse(x.func).split(".")[-1] in LOOKUPS) for x in (val.body, val.orelse)):
                 ok = True
